@@ -274,3 +274,32 @@ pub fn c17_keys(known: &Known) -> SessionScenario {
         tolerated: c17_tolerated(),
     }
 }
+
+/// C13, lock queue: three sessions lock, queue for (twice, with different transaction ids) and
+/// release one key, pipelined in every order: every acquireLock must get its one answer exactly when
+/// its client becomes the holder (or the request is cancelled), also when a client waits twice.
+pub fn c13_locks(known: &Known) -> SessionScenario {
+    let mut lines = vec![];
+    for sess in 0..3usize {
+        let base = 100 * (sess as u64 + 1);
+        for m in [
+            CM::Lock(Lock { transaction_id: base + 1, key: s("l") }),
+            CM::AcquireLock(Lock { transaction_id: base + 2, key: s("l") }),
+            CM::AcquireLock(Lock { transaction_id: base + 3, key: s("l") }),
+            CM::ReleaseLock(Lock { transaction_id: base + 4, key: s("l") }),
+        ] {
+            lines.push((sess, Line::Msg(m)));
+        }
+    }
+    SessionScenario {
+        property: "C13".into(),
+        clients: vec![0, 1, 2],
+        lines,
+        candidates: crate::model::Flags::candidates(&known.open_for("C13")),
+        check_all: true,
+        witness: None,
+        witness_script: vec![],
+        dedup: true,
+        tolerated: Default::default(),
+    }
+}
